@@ -647,9 +647,16 @@ func replay(path string) int {
 		fatal2("%v", err)
 	}
 	defer os.RemoveAll(rundir)
+	os.MkdirAll(filepath.Join(rundir, "work"), 0o755)
 	bin, err := buildTest(rundir, cfg.Race)
 	if err != nil {
 		fatal2("build: %v", err)
+	}
+	if cfg.NeedBins {
+		if err := buildBins(filepath.Join(rundir, "bin"), cfg.NeedRaceBins); err != nil {
+			fmt.Printf("INCONCLUSIVE: the go-critic binaries do not build from /repo's working tree:\n%v\n", err)
+			return 2
+		}
 	}
 	o := runShard(context.Background(), bin, rf.Property, "quick", cfg, tierCfg{Checks: 1, Limit: 10 * time.Minute}, 1, 0, rundir,
 		[]string{"VERIF_REPLAY=" + abs, "VERIF_HANG_S=150"}, "TestReplay")
@@ -657,6 +664,10 @@ func replay(path string) int {
 		for _, f := range o.res.Failures {
 			fmt.Printf("VIOLATION property=%s replay=%s\n  signature: %s\n  %s\n", rf.Property, abs, f.Signature, indent(head(f.Message, 4000)))
 		}
+		return 1
+	}
+	if o.exit == 66 || reRace.MatchString(o.stderr) {
+		fmt.Printf("VIOLATION property=%s replay=%s\n  signature: %s\n  race detector report:\n%s\n", rf.Property, abs, raceSignature(rf.Property, o.stderr), indent(tail(o.stderr, 6000)))
 		return 1
 	}
 	if o.exit != 0 {
